@@ -48,6 +48,8 @@ pub enum Arg {
     CbElemToArr,
     /// radix 2..36
     Radix,
+    /// radix for parsing: powers of two and 10 only (other radices may be approximated beyond 2^53)
+    ParseRadix,
     /// digits 0..20
     Digits,
     /// precision 1..21
@@ -222,11 +224,11 @@ pub static LIB: &[LibEntry] = &[
     e(Static("Number"), "isNaN", &[Arg::Any], Ret::Bool),
     e(Static("Number"), "isSafeInteger", &[Arg::Any], Ret::Bool),
     e(Static("Number"), "parseFloat", &[NumStr], Ret::Num),
-    e(Static("Number"), "parseInt", &[NumStr, Radix], Ret::Num),
+    e(Static("Number"), "parseInt", &[NumStr, ParseRadix], Ret::Num),
     e(Static(""), "Number", &[NumStr], Ret::Num),
     e(Static(""), "Number", &[Arg::Any], Ret::Num),
     e(Static(""), "parseInt", &[NumStr], Ret::Num),
-    e(Static(""), "parseInt", &[NumStr, Radix], Ret::Num),
+    e(Static(""), "parseInt", &[NumStr, ParseRadix], Ret::Num),
     e(Static(""), "parseFloat", &[NumStr], Ret::Num),
     e(Static(""), "isNaN", &[Prim], Ret::Bool),
     e(Static(""), "isFinite", &[Prim], Ret::Bool),
